@@ -192,11 +192,20 @@ func qrLenIn(rng *fw.Rand, v int, l qrref.Level, mode qrref.Mode) int {
 
 func qrHints(version, mask int, charset string) map[gozxing.EncodeHintType]interface{} {
 	h := map[gozxing.EncodeHintType]interface{}{}
+	// both documented forms of the two numeric hints (int and decimal string), chosen by the values
+	// themselves so that a case is reproducible without a generator
+	form := (version*11 + (mask+1)*5 + len(charset)) % 4
 	if version > 0 {
 		h[gozxing.EncodeHintType_QR_VERSION] = version
+		if form == 1 || form == 3 {
+			h[gozxing.EncodeHintType_QR_VERSION] = fmt.Sprint(version)
+		}
 	}
 	if mask >= 0 {
 		h[gozxing.EncodeHintType_QR_MASK_PATTERN] = mask
+		if form == 2 || form == 3 {
+			h[gozxing.EncodeHintType_QR_MASK_PATTERN] = fmt.Sprint(mask)
+		}
 	}
 	if charset != "" {
 		h[gozxing.EncodeHintType_CHARACTER_SET] = charset
